@@ -9,8 +9,7 @@ namespace Elys.Blocks.C18
 
 /-- the environments validation and the standard wiring guarantee, whatever users and the oracle do -/
 def Guaranteed (e : Env) : Prop :=
-  e.usdcEntry = true ∧ e.revenueAddrValid = true ∧ e.blocksPerYearNonzero = true ∧ e.bankSendFails = false ∧
-  e.edenPriceZero = false
+  e.usdcEntry = true ∧ e.revenueAddrValid = true ∧ e.blocksPerYearNonzero = true ∧ e.bankSendFails = false
 
 /-- with the repaired conversion, masterchef's end-blocker succeeds in every guaranteed environment — in particular
 whether or not a fee conversion fails (oracle outage, dust, emptied pools) -/
@@ -26,10 +25,19 @@ theorem edenMints_ok (as : List Int) : edenMints true as = .ok () := by
   | nil => rfl
   | cons a as ih => simp only [edenMints, edenMint_ok, ih]
 
-/-- … and whatever the pools' Eden allocations of the block are (dust pools, tiny yearly amounts, any Eden price) -/
+/-- … whatever the pools' Eden allocations of the block are (dust pools, tiny yearly amounts) and whether or not the Eden price
+has rounded to zero (a lopsided ELYS pool) -/
 theorem ok_under (e : Env) (h : Guaranteed e) : endBlockOutcome true e = .ok () := by
-  obtain ⟨h1, h2, h3, h4, h5⟩ := h
-  simp [endBlockOutcome, h1, h2, h3, h4, h5, edenMints_ok]
+  obtain ⟨h1, h2, h3, h4⟩ := h
+  cases hz : e.edenPriceZero <;> simp [endBlockOutcome, h1, h2, h3, h4, hz, edenMints_ok]
+
+/-- WITNESS (before 5353f3f): a guaranteed environment in which the Eden price has rounded to zero — five sales of three reserves
+of ELYS each into the ELYS/USDC pool (scenario c18-elys-pool-lopsided) — halted the chain -/
+theorem eden_price_halt_witness :
+    let e : Env := { usdcEntry := true, revenueAddrValid := true, blocksPerYearNonzero := true, conversionFails := false,
+                     bankSendFails := false, edenPriceZero := true, edenAllocs := [] }
+    Guaranteed e ∧ endBlockOutcome true e true false = .error .edenPrice ∧ endBlockOutcome true e = .ok () := by
+  refine ⟨by simp [Guaranteed], rfl, rfl⟩
 
 /-- before 932554d exactly the allocations strictly between 0 and 1 base unit halted the chain -/
 theorem edenMint_old_fails_iff (a : Int) : edenMint false a = .error .mint ↔ 0 < a ∧ a < P := by
